@@ -87,3 +87,11 @@ impl RecvRateSet {
     }
 }
 
+
+#[cfg(uflow_verif)]
+impl RecvRateSet {
+    pub fn verif_dump(&self) -> String {
+        let v: Vec<String> = self.entries.iter().map(|e| format!("{}@{}{}", e.value, e.timestamp_ms, if e.is_initial {"i"} else {""})).collect();
+        format!("[{}]", v.join(","))
+    }
+}
